@@ -11,6 +11,7 @@ Surface terms are nested tuples:
     ("or", x, y, ...)      (or x y ...)
     ("*", x) ("+", x) ("?", x)
     ("=", n, x)            (= n x)
+    (">=", n, x)           (>= n x)       n or more repetitions
     ("**", m, n, x)        (** m n x)
     ("$", x)               numbered submatch
     ("->", name, x)        named (and numbered) submatch
@@ -68,6 +69,8 @@ def to_scheme(t):
         return "(%s %s)" % (k, to_scheme(t[1]))
     if k == "=":
         return "(= %d %s)" % (t[1], to_scheme(t[2]))
+    if k == ">=":
+        return "(>= %d %s)" % (t[1], to_scheme(t[2]))
     if k == "**":
         return "(** %d %d %s)" % (t[1], t[2], to_scheme(t[3]))
     if k == "->":
@@ -85,7 +88,7 @@ def children(t):
         return list(t[1:])
     if k in ("*", "+", "?", "$", "nocase", "case"):
         return [t[1]]
-    if k in ("=", "->"):
+    if k in ("=", "->", ">="):
         return [t[2]]
     if k == "**":
         return [t[3]]
@@ -223,6 +226,11 @@ def ends(t, s, i, ci=False):
         return frozenset(reach)
     if k == "=":
         return ends(("seq",) + (t[2],) * t[1], s, i, ci)
+    if k == ">=":
+        out = set()
+        for j in ends(("seq",) + (t[2],) * t[1], s, i, ci):
+            out |= ends(("*", t[2]), s, j, ci)
+        return frozenset(out)
     if k == "**":
         lo, hi, x = t[1], t[2], t[3]
         cur = frozenset([i])
@@ -353,6 +361,12 @@ def core(t, ci=False):
     if k == "=":
         x = core(t[2], ci)
         r = EPS
+        for _ in range(t[1]):
+            r = SEQ(x, r)
+        return r
+    if k == ">=":
+        x = core(t[2], ci)
+        r = STAR(x)
         for _ in range(t[1]):
             r = SEQ(x, r)
         return r
@@ -500,6 +514,8 @@ def to_pyre(t, ci=False):
         return "(?:%s)%s" % (to_pyre(t[1], ci), k)
     if k == "=":
         return "(?:%s){%d}" % (to_pyre(t[2], ci), t[1])
+    if k == ">=":
+        return "(?:%s){%d,}" % (to_pyre(t[2], ci), t[1])
     if k == "**":
         return "(?:%s){%d,%d}" % (to_pyre(t[3], ci), t[1], t[2])
     raise ValueError(t)
